@@ -28,6 +28,8 @@ def rand_space(rng, k=3):
 def gen_case(rng, tier, k):
     nmax = 5 if tier == "quick" else 7
     bnet = common.g_mixed(rng, nmax=nmax, p_core=0.2)
+    if rng.random() < 0.04:
+        bnet = common.g_wide(rng, k=7)        # a large BDD with shared sub-graphs reaches the Petri-net encoder
     qs = []
     for _ in range(5):
         av = [rand_space(rng, 3) for _ in range(rng.choice([0, 0, 1, 2, 3]))]
